@@ -4,13 +4,15 @@ CONSTANTS
   FunRels = {"actionnext", "beads", "xrefprev", "xrefstmprev", "xrefstm", "extends", "length", "refchain", "refcontents", "refkids", "refannots", "pageparent", "fieldparent", "colorspace", "function", "smask", "irt"}
   MaxN = 3
   SymN = 3
-  GraphMod = 5
+  GraphMod = 6
   Decors = {"none", "dangling", "wrong", "null", "direct"}
   DecorMod = 6
   FunMod = 5
+  OutTrees = {23}
+  OutTreeMod = 120
   OutlineNs = {1, 2}
   Outline1Mod = 9
-  OutlineMod = 48
+  OutlineMod = 96
   DepthRels = {"pagetree", "fields", "structtree", "nametree", "numtree", "xobjects", "actionnext", "beads", "xrefprev", "extends", "length", "refchain", "pageparent", "fieldparent", "colorspace", "function", "smask", "irt", "outlinefirst", "outlinenext"}
   SynKinds = {"array", "dict", "mixed", "parens", "contentarray", "contentq", "contentdict"}
   Limit = 100
